@@ -87,6 +87,31 @@ def gAlias : Graph :=
     out := [[⟨1, 3, -1⟩, ⟨2, 3, -1⟩], [], [⟨3, 2, 0⟩], [⟨4, 1, -1⟩], [⟨5, 2, 1⟩], []],
     inn := [[], [⟨0, 3, -1⟩], [⟨0, 3, -1⟩], [⟨2, 2, 0⟩], [⟨3, 1, -1⟩], [⟨4, 2, 1⟩]] }
 
+/-- `w = src(); sink(x)` where the value of `w` (state 7, id 50) is included in a container state
+(node 8) whose STATE id 20 happens to equal the SYMBOL id of the unrelated variable `x` (node 9):
+the reduced form of the graph lian built for a generated program (`out.secret_field = y` gave the
+receiver's state the id of the variable `cr0`).
+0 = call_stmt `w = src()`, 1 = `w` (id 11), 2 = symbol `src`, 3 = its state, 4 = call_stmt `sink`,
+5 = symbol `sink`, 6 = its state, 7 = state of `w`, 8 = containing state, 9 = `x`. -/
+def gStateId : Graph :=
+  { nodes := [
+      py { kind := 1, defStmt := 10, name := "call_stmt", lineNo := 0, operation := "w = src()",
+           sName := "src", startRow := 0 },
+      py { kind := 2, defStmt := 10, index := 1, nodeId := 11, name := "w" },
+      py { kind := 2, defStmt := 10, index := 2, nodeId := -3, name := "src" },
+      py { kind := 3, defStmt := 10, index := 3, nodeId := 100, name := "ep", ap := [⟨true, "src"⟩] },
+      py { kind := 1, defStmt := 12, name := "call_stmt", lineNo := 1,
+           operation := "%vv2 = sink(['x'])", sName := "sink", startRow := 1 },
+      py { kind := 2, defStmt := 12, index := 4, nodeId := -2, name := "sink" },
+      py { kind := 3, defStmt := 12, index := 5, nodeId := 101, name := "ep", ap := [⟨true, "sink"⟩] },
+      py { kind := 3, defStmt := 10, index := 6, nodeId := 50, name := "ep" },
+      py { kind := 3, defStmt := 9, index := 7, nodeId := 20, name := "ep" },
+      py { kind := 2, defStmt := 8, index := 8, nodeId := 20, name := "x" }],
+    out := [[⟨1, 1, -1⟩], [⟨7, 5, -1⟩], [⟨0, 2, 0⟩, ⟨3, 5, -1⟩], [], [], [⟨4, 2, 0⟩, ⟨6, 5, -1⟩], [],
+            [], [⟨7, 7, -1⟩], [⟨4, 2, 1⟩]],
+    inn := [[⟨2, 2, 0⟩], [⟨0, 1, -1⟩], [], [⟨2, 5, -1⟩], [⟨9, 2, 1⟩, ⟨5, 2, 0⟩], [], [⟨5, 5, -1⟩],
+            [⟨1, 5, -1⟩, ⟨8, 7, -1⟩], [], []] }
+
 /-! ### the witnesses of the findings: graph, rule set, frozen single-flag variant of the pinned code
 
 The driver serialises these cases (`{"m":"taintrules","op":"witnesses"}`) so that every run replays
@@ -97,6 +122,8 @@ structure WCase where
   g : Graph
   rs : RuleSet
   frozen : Variant
+  /-- the engine parameters of the pinned code where they differ from the current ones -/
+  frozenPrm : Params → Params := fun p => p
 
 def rsPy : RuleSet :=
   { sources := [srcObjCall "python"], sinks := [sinkCall "python" (.list [some KW_ARG0])] }
@@ -147,6 +174,13 @@ def wAlias : WCase :=
     rs := { srcCode := [], sinks := [sinkCall "python" (.list [some KW_ARG0])] },
     frozen := current }
 
-def allCases : List WCase := [wCallSrc, wLang, wTargetPos, wCodeSink, wSinkLoc, wFieldRead, wAlias]
+/-- the id of a containing STATE written into the SYMBOL table (engine parameter, not a rule variant) -/
+def wStateId : WCase :=
+  { name := "state-id-tagged-as-symbol", g := gStateId,
+    rs := { sources := [srcCall], sinks := [sinkCall "python" (.list [some KW_ARG0])] },
+    frozen := current, frozenPrm := fun p => { p with stateUpSymOnly := false } }
+
+def allCases : List WCase :=
+  [wCallSrc, wLang, wTargetPos, wCodeSink, wSinkLoc, wFieldRead, wAlias, wStateId]
 
 end LianVerif.TaintWitness
